@@ -1,12 +1,20 @@
 import Casket.Proofs.ImportMeasure
 import Casket.Proofs.ParserTerm
+import Casket.Proofs.ParserMono
 /-
-Termination of the parser model WITH file imports (C10): the cycle check bounds the expansion.
-Scope: configurations that define no snippets (no address token expands to something starting with `(`);
-see `Hyp`.  Everything else — any bytes, any files, globs, import cycles of any shape — is covered.
+Termination of the parser model WITH imports and snippets (C10): the cycle check bounds the expansion.
+
+Between two snippet definitions the snippet table `sn` is constant (a snippet is defined only by `begin`, which
+`parseAll` calls directly), and the total weight `Phi` of the tokens ahead — computed for THAT table — goes down with
+every `Next` and every import (`doImport_tm` … `blockContents_tm`, `addresses_tm`: explicit fuel `Phi + 1`).  A snippet
+definition changes the table, so the weights are recomputed (more sources, a longer longest source), but a name can
+be defined only once and is one of finitely many candidates (`candNames`): `parseAll_total` is a lexicographic
+induction over (candidate names not yet defined, Phi); it needs the fuel monotonicity of Proofs/ParserMono.lean.
 -/
 namespace Casket.Parser
 open Casket.Lexer Casket.Dispenser Casket.Dispenser.Disp Casket.DispenserSpec
+
+abbrev Snips := List (Bytes × List Token)
 
 /-- `importFiles` is a map -/
 def importOne (p : String × Bytes) : String × List Token := (p.1, (lex p.2).map fun t => { t with file := p.1 })
@@ -18,9 +26,13 @@ theorem importFiles_eq_map (l : List (String × Bytes)) : importFiles l = l.map 
 
 /-- all tokens that can ever be in the token list: those of the input and those of every file -/
 def srcToks (cfg : Cfg) (o : List Token) : List Token := o ++ (importFiles cfg.fs.files).flatMap (·.2)
-/-- the most tokens one import directive can splice in -/
+/-- the most tokens one FILE import directive can splice in -/
 def Lmax (cfg : Cfg) : Nat := ((importFiles cfg.fs.files).map (·.2.length)).sum
 def fileNames (cfg : Cfg) : List ImpName := cfg.fs.files.map fun f => ImpName.file f.1
+/-- the most tokens one import directive can splice in while the snippets `sn` are defined -/
+def LmaxS (cfg : Cfg) (sn : Snips) : Nat := Lmax cfg + (sn.map (·.2.length)).sum
+/-- everything an import directive can name while the snippets `sn` are defined -/
+def srcNames (cfg : Cfg) (sn : Snips) : List ImpName := fileNames cfg ++ sn.map fun p => ImpName.snippet p.1
 
 /-- hypotheses on the configuration: the repaired parser; environment replacement of every source token ends, and in
 something that does not start with `(` (so no snippet is ever defined) -/
@@ -28,27 +40,67 @@ def Hyp (cfg : Cfg) (o : List Token) : Prop :=
   cfg.cycleCheck = true ∧ 0 < cfg.envFuel ∧
   ∀ t ∈ srcToks cfg o, ∃ r, envR cfg t.text = .ok r ∧ r.head? ≠ some lparen
 
-structure TInv (cfg : Cfg) (o : List Token) (s : PState) : Prop where
+/-- … without the restriction on snippets: the repaired parser; environment replacement of every source token ends -/
+def HypS (cfg : Cfg) (o : List Token) : Prop :=
+  cfg.cycleCheck = true ∧ 0 < cfg.envFuel ∧ ∀ t ∈ srcToks cfg o, ∃ r, envR cfg t.text = .ok r
+
+theorem Hyp.toS {cfg : Cfg} {o : List Token} (h : Hyp cfg o) : HypS cfg o :=
+  ⟨h.1, h.2.1, fun t ht => by obtain ⟨r, hr, _⟩ := h.2.2 t ht; exact ⟨r, hr⟩⟩
+
+/-- a key is the expansion of a source token, possibly without its trailing comma -/
+def KeyOK (cfg : Cfg) (o : List Token) (k : Bytes) : Prop :=
+  ∃ t ∈ srcToks cfg o, ∃ r, envR cfg t.text = .ok r ∧ (k = r ∨ k = r.dropLast)
+
+/-- every name a snippet definition can ever have -/
+def candNames (cfg : Cfg) (o : List Token) : List Bytes :=
+  (srcToks cfg o).flatMap fun t =>
+    match envR cfg t.text with
+    | .ok r => (isSnippet [r]).toList ++ (isSnippet [r.dropLast]).toList
+    | _ => []
+
+theorem candNames_mem {cfg : Cfg} {o : List Token} {k n : Bytes} (hk : KeyOK cfg o k) (hn : isSnippet [k] = some n) :
+    n ∈ candNames cfg o := by
+  obtain ⟨t, ht, r, hr, hkr⟩ := hk
+  unfold candNames
+  rw [List.mem_flatMap]
+  refine ⟨t, ht, ?_⟩
+  rw [hr]
+  simp only [List.mem_append, Option.mem_toList]
+  rcases hkr with rfl | rfl
+  · exact Or.inl hn
+  · exact Or.inr hn
+
+structure TInv (cfg : Cfg) (o : List Token) (sn : Snips) (s : PState) : Prop where
   ok : cursorOk s.d
-  snip : s.snippets = []
+  snip : s.snippets = sn
+  body : ∀ p ∈ sn, ∀ t ∈ p.2, t ∈ srcToks cfg o
   fok : FOK s.frames
-  names : ∀ f ∈ s.frames, ∀ e ∈ f, e.name ∈ fileNames cfg
+  names : ∀ f ∈ s.frames, ∀ e ∈ f, e.name ∈ srcNames cfg sn
   after : ∀ i : Nat, s.d.cursor < (i : Int) → ∀ t, s.d.tokens[i]? = some t → t ∈ srcToks cfg o
-  keys : ∀ k ∈ s.keys, k.head? ≠ some lparen
+  keys : ∀ k ∈ s.keys, KeyOK cfg o k
 
 /-- … and the token under the cursor, if there is one, is a source token too -/
-def TFresh (cfg : Cfg) (o : List Token) (s : PState) : Prop :=
-  TInv cfg o s ∧ 0 ≤ s.d.cursor ∧ ∀ t, s.d.tok? s.d.cursor = some t → t ∈ srcToks cfg o
+def TFresh (cfg : Cfg) (o : List Token) (sn : Snips) (s : PState) : Prop :=
+  TInv cfg o sn s ∧ 0 ≤ s.d.cursor ∧ ∀ t, s.d.tok? s.d.cursor = some t → t ∈ srcToks cfg o
 
 /-- number of tokens strictly after the cursor -/
 def K (s : PState) : Nat := (s.d.len - s.d.cursor - 1).toNat
 
-def wt (cfg : Cfg) (fs : List (List Active)) (r : Nat) : Nat := wgt (Lmax cfg + 2) cfg.fs.files.length (dep fs r)
+def wt (cfg : Cfg) (sn : Snips) (fs : List (List Active)) (r : Nat) : Nat :=
+  wgt (LmaxS cfg sn + 2) (srcNames cfg sn).length (dep fs r)
 
 /-- the measure: total weight of the tokens still ahead -/
-def Phi (cfg : Cfg) (s : PState) : Nat := phiK (wt cfg s.frames) (K s)
+def Phi (cfg : Cfg) (sn : Snips) (s : PState) : Nat := phiK (wt cfg sn s.frames) (K s)
 
-theorem wt_pos (cfg : Cfg) (fs : List (List Active)) (r : Nat) : 0 < wt cfg fs r := wgt_pos _ _ _ (by omega)
+theorem wt_pos (cfg : Cfg) (sn : Snips) (fs : List (List Active)) (r : Nat) : 0 < wt cfg sn fs r :=
+  wgt_pos _ _ _ (by omega)
+
+theorem le_phiK {w : Nat → Nat} (h : ∀ r, 0 < w r) (k : Nat) : k ≤ phiK w k := by
+  induction k with
+  | zero => exact Nat.le_refl _
+  | succ n ih => simp only [phiK]; have := h (n + 1); omega
+
+theorem K_le_Phi (cfg : Cfg) (sn : Snips) (s : PState) : K s ≤ Phi cfg sn s := le_phiK (wt_pos cfg sn s.frames) _
 
 /-- no fuel problem, and an `ok` state satisfies `P` -/
 def Tm {α : Type} (P : α → Prop) : Res α → Prop
@@ -71,11 +123,23 @@ theorem Tm.mono {α : Type} {P Q : α → Prop} {r : Res α} (hr : Tm P r) (h : 
   | panic m => exact trivial
   | timeout => exact hr.elim
 
+theorem Tm.ne_timeout {α : Type} {P : α → Prop} {r : Res α} (hr : Tm P r) : r ≠ .timeout := by
+  intro h; rw [h] at hr; exact hr
+
 theorem sum_le_of_sublist {l1 l2 : List Nat} (h : l1.Sublist l2) : l1.sum ≤ l2.sum := by
   induction h with
   | slnil => exact Nat.le_refl _
   | cons a _ ih => simp only [List.sum_cons]; omega
   | cons_cons a _ ih => simp only [List.sum_cons]; omega
+
+theorem mem_le_sum {l : List Nat} {x : Nat} (h : x ∈ l) : x ≤ l.sum := by
+  induction l with
+  | nil => cases h
+  | cons a t ih =>
+    simp only [List.sum_cons]
+    rcases List.mem_cons.mp h with rfl | h
+    · omega
+    · have := ih h; omega
 
 /-- what a matched set of files contributes -/
 theorem imported_spec (cfg : Cfg) (o : List Token) (ms : List (String × Bytes)) (hsub : ms.Sublist cfg.fs.files) :
@@ -134,120 +198,184 @@ theorem scanFiles_none {fr : List (List Active)} {ms : List (String × Bytes)} (
 theorem heads_mem {fs : List (List Active)} {n : ImpName} (h : n ∈ heads fs) : ∃ f ∈ fs, ∃ e ∈ f, e.name = n :=
   importing_mem ((importing_iff fs n).mpr h)
 
-/-- the stack and the measure after one import directive that is followed by `A` tokens and splices in the files `ms` -/
-theorem import_measure (cfg : Cfg) (o : List Token) (fs : List (List Active)) (A : Nat) (ms : List (String × Bytes))
-    (hf : FOK fs) (hn : ∀ f ∈ fs, ∀ e ∈ f, e.name ∈ fileNames cfg) (hsub : ms.Sublist cfg.fs.files)
-    (hscan : ∀ f ∈ ms, importing (popFrames A fs) (.file f.1) = false) (fr : List (List Active))
-    (hfr : fr = (match activesOf (importFiles ms) A with | [] => popFrames A fs | f => f :: popFrames A fs)) :
-    FOK fr ∧ (∀ f ∈ fr, ∀ e ∈ f, e.name ∈ fileNames cfg) ∧
-    phiK (wt cfg fr) (A + ((importFiles ms).flatMap (·.2)).length) + 1 ≤ phiK (wt cfg fs) (A + 1) := by
+/-- `popFrames` only drops entries and frames -/
+theorem popFrames_mem (A : Nat) (l : List (List Active)) : ∀ g ∈ popFrames A l, ∀ x ∈ g, ∃ g' ∈ l, x ∈ g' := by
+  induction l with
+  | nil => intro g hg; simp [popFrames] at hg
+  | cons g0 rest ih =>
+    intro g hg x hx
+    rcases dropFinished_spec A g0 with ⟨hd, _⟩ | ⟨pre, hpre, hdne, _⟩
+    · rw [popFrames_cons_nil hd] at hg
+      obtain ⟨g', hg', hx'⟩ := ih g hg x hx
+      exact ⟨g', List.mem_cons_of_mem _ hg', hx'⟩
+    · rw [popFrames_cons_ne hdne] at hg
+      rcases List.mem_cons.mp hg with rfl | hg
+      · exact ⟨g0, List.mem_cons_self, by rw [hpre]; exact List.mem_append_right _ hx⟩
+      · exact ⟨g, List.mem_cons_of_mem _ hg, hx⟩
+
+/-- the stack an import directive followed by `A` tokens starts from -/
+theorem pop_measure (cfg : Cfg) (sn : Snips) (fs : List (List Active)) (A : Nat)
+    (hf : FOK fs) (hn : ∀ f ∈ fs, ∀ e ∈ f, e.name ∈ srcNames cfg sn) :
+    (∀ f ∈ popFrames A fs, ∀ e ∈ f, e.name ∈ srcNames cfg sn) ∧
+    phiK (wt cfg sn (popFrames A fs)) A = phiK (wt cfg sn fs) A ∧
+    wt cfg sn fs (A + 1) = wgt (LmaxS cfg sn + 2) (srcNames cfg sn).length (popFrames A fs).length := by
   obtain ⟨hp1, hp2, hp3, hp4⟩ := popFrames_spec A fs hf
-  obtain ⟨hlen, _, hsum⟩ := imported_spec cfg o ms hsub
-  have hpn : ∀ f ∈ popFrames A fs, ∀ e ∈ f, e.name ∈ fileNames cfg := by
-    intro f hfm e he
-    have him : importing (popFrames A fs) e.name = true ∨ True := Or.inr trivial
-    -- every entry of a popped frame is an entry of an original frame: use the suffix structure via FOK-free argument
-    clear him
-    -- popFrames only drops entries and frames
-    have : ∀ (l : List (List Active)), (∀ g ∈ l, ∀ x ∈ g, x.name ∈ fileNames cfg) →
-        ∀ g ∈ popFrames A l, ∀ x ∈ g, x.name ∈ fileNames cfg := by
-      intro l
-      induction l with
-      | nil => intro _ g hg; simp [popFrames] at hg
-      | cons g0 rest ih =>
-        intro hl g hg x hx
-        rcases dropFinished_spec A g0 with ⟨hd, _⟩ | ⟨pre, hpre, hdne, _⟩
-        · rw [popFrames_cons_nil hd] at hg
-          exact ih (fun g' hg' => hl g' (List.mem_cons_of_mem _ hg')) g hg x hx
-        · rw [popFrames_cons_ne hdne] at hg
-          rcases List.mem_cons.mp hg with rfl | hg
-          · exact hl g0 List.mem_cons_self x (by rw [hpre]; exact List.mem_append_right _ hx)
-          · exact hl g (List.mem_cons_of_mem _ hg) x hx
-    exact this fs hn f hfm e he
   have hall : ∀ f ∈ popFrames A fs, lastAfter f ≤ A := lastAfter_le_of_FOK hp1 A hp2
-  have hbase : phiK (wt cfg (popFrames A fs)) A = phiK (wt cfg fs) A :=
-    phiK_congr A (fun r hr => by unfold wt; rw [hp3 r (by omega)])
-  have hw1 : wt cfg fs (A + 1) = wgt (Lmax cfg + 2) cfg.fs.files.length (popFrames A fs).length := by
-    unfold wt; rw [← hp3 (A + 1) (Nat.le_refl _), dep_all hall (by omega)]
-  have hphi : phiK (wt cfg fs) (A + 1) = phiK (wt cfg fs) A + wt cfg fs (A + 1) := rfl
-  obtain ⟨ha1, ha2, ha3, _⟩ := activesOf_spec (importFiles ms) A
-  cases hact : activesOf (importFiles ms) A with
-  | nil =>
-    rw [hact] at hfr
-    simp only at hfr
-    subst hfr
-    have him : importFiles ms = [] := by
-      by_cases himp : importFiles ms = []
-      · exact himp
-      · exact absurd hact (ha3 himp).1
-    refine ⟨hp1, hpn, ?_⟩
-    rw [him]
-    simp only [List.flatMap_nil, List.length_nil, Nat.add_zero]
-    rw [hbase, hphi]
-    have := wt_pos cfg fs (A + 1)
-    omega
-  | cons x xs =>
-    rw [hact] at hfr
-    simp only at hfr
-    subst hfr
-    have hne : importFiles ms ≠ [] := by intro he; rw [he] at hact; simp [activesOf] at hact
-    have hgood : ∀ e ∈ x :: xs, importing (popFrames A fs) e.name = false := by
-      intro e he
-      obtain ⟨_, p, hp, hname⟩ := ha2 e (by rw [hact]; exact he)
-      rw [importFiles_eq_map] at hp
-      obtain ⟨f, hfm, rfl⟩ := List.mem_map.mp hp
-      rw [hname]; exact hscan f hfm
-    have hnamesNew : ∀ e ∈ x :: xs, e.name ∈ fileNames cfg := by
-      intro e he
-      obtain ⟨_, p, hp, hname⟩ := ha2 e (by rw [hact]; exact he)
-      rw [importFiles_eq_map] at hp
-      obtain ⟨f, hfm, rfl⟩ := List.mem_map.mp hp
-      rw [hname]
-      exact List.mem_map.mpr ⟨f, hsub.subset hfm, rfl⟩
-    obtain ⟨hq1, hq2, hq3⟩ := push_spec (fnew := x :: xs) hp1 hp2 (by simp) (hact ▸ ha1) (hact ▸ (ha3 hne).2) hgood
-    have hnfr : ∀ f ∈ (x :: xs) :: popFrames A fs, ∀ e ∈ f, e.name ∈ fileNames cfg := by
-      intro f hfm e he
-      rcases List.mem_cons.mp hfm with rfl | hfm
-      · exact hnamesNew e he
-      · exact hpn f hfm e he
-    refine ⟨hq1, hnfr, ?_⟩
-    -- depth bound from the distinctness of the sources being expanded
-    obtain ⟨hnd, hhl⟩ := heads_nodup hq1
-    have hdepth : (popFrames A fs).length + 1 ≤ cfg.fs.files.length := by
-      have := nodup_length_le (heads ((x :: xs) :: popFrames A fs)) (fileNames cfg) hnd (fun n hnm => by
-        obtain ⟨f, hfm, e, he, rfl⟩ := heads_mem hnm
-        exact hnfr f hfm e he)
-      rw [hhl] at this
-      simpa [fileNames] using this
-    generalize ((importFiles ms).flatMap (·.2)).length = m at hlen ⊢
-    have hconst : phiK (wt cfg ((x :: xs) :: popFrames A fs)) (A + m) =
-        phiK (wt cfg ((x :: xs) :: popFrames A fs)) A + m * wgt (Lmax cfg + 2) cfg.fs.files.length ((popFrames A fs).length + 1) :=
-      phiK_const A m _ (fun r h1 _ => by unfold wt; rw [hq3 r h1])
-    have hlow : phiK (wt cfg ((x :: xs) :: popFrames A fs)) A = phiK (wt cfg fs) A := by
-      rw [← hbase]
-      exact phiK_congr A (fun r hr => by unfold wt; rw [hq2 r hr])
-    rw [hconst, hlow, hphi, hw1]
-    have := wgt_step (Lmax cfg) cfg.fs.files.length (popFrames A fs).length m (by omega) hlen
-    omega
+  refine ⟨?_, ?_, ?_⟩
+  · intro f hfm e he
+    obtain ⟨g', hg', hx'⟩ := popFrames_mem A fs f hfm e he
+    exact hn g' hg' e hx'
+  · exact phiK_congr A (fun r hr => by unfold wt; rw [hp3 r (by omega)])
+  · unfold wt; rw [← hp3 (A + 1) (Nat.le_refl _), dep_all hall (by omega)]
 
+/-- an import that splices nothing (an empty glob): the two tokens of the directive are gone -/
+theorem empty_measure (cfg : Cfg) (sn : Snips) (fs : List (List Active)) (A : Nat)
+    (hf : FOK fs) (hn : ∀ f ∈ fs, ∀ e ∈ f, e.name ∈ srcNames cfg sn) :
+    phiK (wt cfg sn (popFrames A fs)) A + 1 ≤ phiK (wt cfg sn fs) (A + 1) := by
+  obtain ⟨_, hbase, _⟩ := pop_measure cfg sn fs A hf hn
+  have hphi : phiK (wt cfg sn fs) (A + 1) = phiK (wt cfg sn fs) A + wt cfg sn fs (A + 1) := rfl
+  rw [hbase, hphi]
+  have := wt_pos cfg sn fs (A + 1)
+  omega
 
-/-- `resolveImport` when no snippet is defined and the cycle check is on -/
-theorem resolveImport_ok_spec {cfg : Cfg} {s : PState} {d1 : Disp} {pat : Bytes} {A : Nat}
-    {imp : List Token × List (List Active)} (hc : cfg.cycleCheck = true) (hs : s.snippets = [])
-    (h : resolveImport cfg s d1 pat A = .ok imp) :
-    ∃ ms : List (String × Bytes), ms.Sublist cfg.fs.files ∧ imp.1 = (importFiles ms).flatMap (·.2) ∧
-      imp.2 = (match activesOf (importFiles ms) A with | [] => popFrames A s.frames | f => f :: popFrames A s.frames) ∧
-      ∀ f ∈ ms, importing (popFrames A s.frames) (.file f.1) = false := by
-  unfold resolveImport at h
-  simp only [hc, hs, if_true, lookupSnippet, List.find?_nil, Option.map_none, Bool.true_and] at h
-  split at h
-  · cases h
-  · rename_i ms hres
-    split at h
-    · cases h
-    · rename_i hscan
-      cases h
-      exact ⟨ms, resolve_sublist hres, rfl, rfl, scanFiles_none hscan⟩
+/-- the stack and the measure after one import directive that is followed by `A` tokens and pushes the sources `fnew`,
+`m` tokens in all -/
+theorem push_measure (cfg : Cfg) (sn : Snips) (fs : List (List Active)) (A m : Nat) (fnew : List Active)
+    (hf : FOK fs) (hn : ∀ f ∈ fs, ∀ e ∈ f, e.name ∈ srcNames cfg sn)
+    (hne : fnew ≠ []) (hs : fnew.Pairwise (fun x y => y.after ≤ x.after)) (hla : lastAfter fnew = A)
+    (hgood : ∀ e ∈ fnew, importing (popFrames A fs) e.name = false)
+    (hnew : ∀ e ∈ fnew, e.name ∈ srcNames cfg sn) (hm : m ≤ LmaxS cfg sn) :
+    FOK (fnew :: popFrames A fs) ∧ (∀ f ∈ fnew :: popFrames A fs, ∀ e ∈ f, e.name ∈ srcNames cfg sn) ∧
+    phiK (wt cfg sn (fnew :: popFrames A fs)) (A + m) + 1 ≤ phiK (wt cfg sn fs) (A + 1) := by
+  obtain ⟨hp1, hp2, hp3, hp4⟩ := popFrames_spec A fs hf
+  obtain ⟨hpn, hbase, hw1⟩ := pop_measure cfg sn fs A hf hn
+  have hphi : phiK (wt cfg sn fs) (A + 1) = phiK (wt cfg sn fs) A + wt cfg sn fs (A + 1) := rfl
+  obtain ⟨hq1, hq2, hq3⟩ := push_spec (fnew := fnew) hp1 hp2 hne hs hla hgood
+  have hnfr : ∀ f ∈ fnew :: popFrames A fs, ∀ e ∈ f, e.name ∈ srcNames cfg sn := by
+    intro f hfm e he
+    rcases List.mem_cons.mp hfm with rfl | hfm
+    · exact hnew e he
+    · exact hpn f hfm e he
+  refine ⟨hq1, hnfr, ?_⟩
+  -- depth bound from the distinctness of the sources being expanded
+  obtain ⟨hnd, hhl⟩ := heads_nodup hq1
+  have hdepth : (popFrames A fs).length + 1 ≤ (srcNames cfg sn).length := by
+    have := nodup_length_le (heads (fnew :: popFrames A fs)) (srcNames cfg sn) hnd (fun n hnm => by
+      obtain ⟨f, hfm, e, he, rfl⟩ := heads_mem hnm
+      exact hnfr f hfm e he)
+    rw [hhl] at this
+    simpa using this
+  have hconst : phiK (wt cfg sn (fnew :: popFrames A fs)) (A + m) =
+      phiK (wt cfg sn (fnew :: popFrames A fs)) A + m * wgt (LmaxS cfg sn + 2) (srcNames cfg sn).length ((popFrames A fs).length + 1) :=
+    phiK_const A m _ (fun r h1 _ => by unfold wt; rw [hq3 r h1])
+  have hlow : phiK (wt cfg sn (fnew :: popFrames A fs)) A = phiK (wt cfg sn fs) A := by
+    rw [← hbase]
+    exact phiK_congr A (fun r hr => by unfold wt; rw [hq2 r hr])
+  rw [hconst, hlow, hphi, hw1]
+  have := wgt_step (LmaxS cfg sn) (srcNames cfg sn).length (popFrames A fs).length m (by omega) hm
+  omega
+
+theorem lookupSnippet_some {sn : Snips} {k : Bytes} {body : List Token} (h : lookupSnippet sn k = some body) :
+    (k, body) ∈ sn := by
+  unfold lookupSnippet at h
+  cases hf : sn.find? (fun p => p.1 == k) with
+  | none => rw [hf] at h; cases h
+  | some p =>
+    rw [hf] at h
+    simp only [Option.map_some, Option.some.injEq] at h
+    have h1 := List.find?_some hf
+    have h2 := List.mem_of_find?_eq_some hf
+    simp only [beq_iff_eq] at h1
+    obtain ⟨a, b⟩ := p
+    simp only at h1 h
+    subst h1; subst h; exact h2
+
+theorem lookupSnippet_none {sn : Snips} {k : Bytes} (h : lookupSnippet sn k = none) : k ∉ sn.map (·.1) := by
+  unfold lookupSnippet at h
+  simp only [Option.map_eq_none_iff, List.find?_eq_none, beq_iff_eq] at h
+  intro hm
+  obtain ⟨p, hp, hpk⟩ := List.mem_map.mp hm
+  exact h p hp hpk
+
+/-- what one import directive splices in, and the import stack afterwards -/
+def ImpPost (cfg : Cfg) (o : List Token) (sn : Snips) (fs : List (List Active)) (A : Nat)
+    (imp : List Token × List (List Active)) : Prop :=
+  (∀ t ∈ imp.1, t ∈ srcToks cfg o) ∧ FOK imp.2 ∧ (∀ f ∈ imp.2, ∀ e ∈ f, e.name ∈ srcNames cfg sn) ∧
+  phiK (wt cfg sn imp.2) (A + imp.1.length) + 1 ≤ phiK (wt cfg sn fs) (A + 1)
+
+/-- `resolveImport` with the cycle check on: needs no fuel; files and snippets alike push one frame of fresh sources
+whose tokens weigh less than the directive did -/
+theorem resolveImport_tm (cfg : Cfg) (o : List Token) (sn : Snips) (hcc : cfg.cycleCheck = true) (s : PState)
+    (h : TInv cfg o sn s) (d1 : Disp) (pat : Bytes) (A : Nat) :
+    Tm (ImpPost cfg o sn s.frames A) (resolveImport cfg s d1 pat A) := by
+  unfold resolveImport
+  simp only [hcc, if_true, Bool.true_and]
+  rw [h.snip]
+  cases hl : lookupSnippet sn pat with
+  | some body =>
+    simp only
+    split
+    · exact trivial
+    · rename_i hnimp
+      have hmem := lookupSnippet_some hl
+      have hgood : ∀ e ∈ [(⟨.snippet pat, A⟩ : Active)], importing (popFrames A s.frames) e.name = false := by
+        intro e he
+        simp only [List.mem_singleton] at he
+        subst he
+        simpa using hnimp
+      have hnew : ∀ e ∈ [(⟨.snippet pat, A⟩ : Active)], e.name ∈ srcNames cfg sn := by
+        intro e he
+        simp only [List.mem_singleton] at he
+        subst he
+        exact List.mem_append_right _ (List.mem_map.mpr ⟨(pat, body), hmem, rfl⟩)
+      have hm : body.length ≤ LmaxS cfg sn := by
+        have : body.length ≤ (sn.map (·.2.length)).sum := mem_le_sum (List.mem_map.mpr ⟨(pat, body), hmem, rfl⟩)
+        unfold LmaxS; omega
+      obtain ⟨hF1, hF2, hF3⟩ := push_measure cfg sn s.frames A body.length [⟨.snippet pat, A⟩] h.fok h.names
+        (by simp) (List.pairwise_singleton _ _) rfl hgood hnew hm
+      exact ⟨h.body (pat, body) hmem, hF1, hF2, hF3⟩
+  | none =>
+    simp only
+    split
+    · exact trivial
+    · rename_i ms hres
+      split
+      · exact trivial
+      · rename_i hscan
+        have hsub := resolve_sublist hres
+        have hsc := scanFiles_none hscan
+        obtain ⟨hlen, hm2, hsum⟩ := imported_spec cfg o ms hsub
+        have hlenS : ((importFiles ms).flatMap (·.2)).length ≤ LmaxS cfg sn := by unfold LmaxS; omega
+        obtain ⟨ha1, ha2, ha3, _⟩ := activesOf_spec (importFiles ms) A
+        show ImpPost cfg o sn s.frames A (_, _)
+        cases hact : activesOf (importFiles ms) A with
+        | nil =>
+          have him : importFiles ms = [] := by
+            by_cases himp : importFiles ms = []
+            · exact himp
+            · exact absurd hact (ha3 himp).1
+          obtain ⟨hpn, _, _⟩ := pop_measure cfg sn s.frames A h.fok h.names
+          refine ⟨hm2, (popFrames_spec A s.frames h.fok).1, hpn, ?_⟩
+          simp only [him, List.flatMap_nil, List.length_nil, Nat.add_zero]
+          exact empty_measure cfg sn s.frames A h.fok h.names
+        | cons x xs =>
+          have hne : importFiles ms ≠ [] := by intro he; rw [he] at hact; simp [activesOf] at hact
+          have hgood : ∀ e ∈ x :: xs, importing (popFrames A s.frames) e.name = false := by
+            intro e he
+            obtain ⟨_, p, hp, hname⟩ := ha2 e (by rw [hact]; exact he)
+            rw [importFiles_eq_map] at hp
+            obtain ⟨f, hfm, rfl⟩ := List.mem_map.mp hp
+            rw [hname]; exact hsc f hfm
+          have hnew : ∀ e ∈ x :: xs, e.name ∈ srcNames cfg sn := by
+            intro e he
+            obtain ⟨_, p, hp, hname⟩ := ha2 e (by rw [hact]; exact he)
+            rw [importFiles_eq_map] at hp
+            obtain ⟨f, hfm, rfl⟩ := List.mem_map.mp hp
+            rw [hname]
+            exact List.mem_append_left _ (List.mem_map.mpr ⟨f, hsub.subset hfm, rfl⟩)
+          obtain ⟨hF1, hF2, hF3⟩ := push_measure cfg sn s.frames A ((importFiles ms).flatMap (·.2)).length (x :: xs)
+            h.fok h.names (by simp) (hact ▸ ha1) (hact ▸ (ha3 hne).2) hgood hnew hlenS
+          exact ⟨hm2, hF1, hF2, hF3⟩
 
 theorem K_back {s : PState} (h : cursorOk s.d) : K (back s) = (s.d.len - s.d.cursor).toNat := by
   unfold K back
@@ -255,9 +383,10 @@ theorem K_back {s : PState} (h : cursorOk s.d) : K (back s) = (s.d.len - s.d.cur
   congr 1; omega
 
 /-- `doImport`: no fuel needed; afterwards the measure is strictly smaller, even after stepping back one token -/
-theorem doImport_tm (cfg : Cfg) (o : List Token) (hyp : Hyp cfg o) (s : PState) (h : TInv cfg o s) (h0 : 0 ≤ s.d.cursor) :
-    Tm (fun s2 => TFresh cfg o s2 ∧ s2.d.cursor = s.d.cursor ∧ s2.keys = s.keys ∧ s2.eof = s.eof ∧
-      Phi cfg (back s2) + 1 ≤ Phi cfg s ∧ Phi cfg s2 ≤ Phi cfg (back s2)) (doImport cfg s) := by
+theorem doImport_tm (cfg : Cfg) (o : List Token) (sn : Snips) (hyp : HypS cfg o) (s : PState) (h : TInv cfg o sn s)
+    (h0 : 0 ≤ s.d.cursor) :
+    Tm (fun s2 => TFresh cfg o sn s2 ∧ s2.d.cursor = s.d.cursor ∧ s2.keys = s.keys ∧ s2.eof = s.eof ∧
+      Phi cfg sn (back s2) + 1 ≤ Phi cfg sn s ∧ Phi cfg sn s2 ≤ Phi cfg sn (back s2)) (doImport cfg s) := by
   obtain ⟨hcc, hfuel, henv⟩ := hyp
   have hs := nextArg_spec s.d h.ok
   unfold doImport
@@ -282,7 +411,7 @@ theorem doImport_tm (cfg : Cfg) (o : List Token) (hyp : Hyp cfg o) (s : PState) 
       exact h.after _ (by omega) ta hidx
     have hval : s.d.nextArg.2.val = ta.text := by
       unfold Disp.val Disp.tok?; rw [htoks, hta]
-    obtain ⟨pat, hpat, _⟩ := henv ta htam
+    obtain ⟨pat, hpat⟩ := henv ta htam
     rw [hval, hpat]
     simp only [Res.bind]
     split
@@ -301,90 +430,76 @@ theorem doImport_tm (cfg : Cfg) (o : List Token) (hyp : Hyp cfg o) (s : PState) 
         have hA : (List.drop (i + 2) s.d.tokens).length = s.d.tokens.length - (i + 2) := List.length_drop
         rw [htoks, e1, e2, e3, hA]
         generalize hAdef : s.d.tokens.length - (i + 2) = A
-        cases hres : resolveImport cfg s s.d.nextArg.2 pat A with
-        | err c fl l => exact trivial
-        | panic m => exact trivial
-        | timeout =>
-          exfalso
-          unfold resolveImport at hres
-          simp only [hcc, h.snip, if_true, lookupSnippet, List.find?_nil, Option.map_none, Bool.true_and] at hres
-          split at hres
-          · cases hres
-          · split at hres <;> cases hres
-        | ok imp =>
-          obtain ⟨ms, hsub, himp1, himp2, hscan⟩ := resolveImport_ok_spec hcc h.snip hres
-          simp only [Res.bind]
-          obtain ⟨hm1, hm2, _⟩ := imported_spec cfg o ms hsub
-          obtain ⟨hF1, hF2, hF3⟩ := import_measure cfg o s.frames A ms h.fok h.names hsub hscan imp.2 himp2
-          have hnewlen : (List.take i s.d.tokens ++ imp.1 ++ List.drop (i + 2) s.d.tokens).length = i + imp.1.length + A := by
-            simp only [List.length_append, List.length_take, List.length_drop]; omega
-          have hmem : ∀ j : Nat, i ≤ j → ∀ t, (List.take i s.d.tokens ++ imp.1 ++ List.drop (i + 2) s.d.tokens)[j]? = some t →
-              t ∈ srcToks cfg o := by
-            intro j hj t ht
-            rw [List.append_assoc, List.getElem?_append_right (by simp only [List.length_take]; omega)] at ht
-            have hmm := List.mem_of_getElem? ht
-            rcases List.mem_append.mp hmm with hm | hm
-            · rw [himp1] at hm; exact hm2 t hm
-            · obtain ⟨k, hk⟩ := List.getElem?_of_mem hm
-              rw [List.getElem?_drop] at hk
-              exact h.after (i + 2 + k) (by omega) t hk
-          refine ⟨⟨⟨⟨?_, ?_⟩, h.snip, hF1, hF2, ?_, h.keys⟩, ?_, ?_⟩, ?_, rfl, rfl, ?_, ?_⟩
-          · simp only; omega
-          · simp only [Disp.len, hnewlen]; omega
-          · intro j hj t ht
-            exact hmem j (by have : (i : Int) < (j : Int) := hj; omega) t ht
-          · simp only; omega
-          · intro t ht
-            simp only [Disp.tok?] at ht
-            unfold tokAt at ht
-            rw [if_pos (Int.natCast_nonneg i)] at ht
-            simp only [Int.toNat_natCast] at ht
-            exact hmem i (Nat.le_refl _) t ht
-          · simp only; omega
-          · -- the measure
-            have hKs : K s = A + 1 := by
-              unfold K; simp only [Disp.len]; omega
-            unfold Phi
-            rw [hKs]
-            have hKb : ∀ s' : PState, s'.d.len = ((i + imp.1.length + A : Nat) : Int) → s'.d.cursor = (i : Int) →
-                K (back s') = A + imp.1.length := by
-              intro s' h1 h2
-              unfold K back
-              simp only [setCursor_cursor, setCursor_len, h1, h2]
-              omega
-            rw [hKb _ (by simp only [Disp.len, hnewlen]) rfl]
-            simp only [back]
-            rw [himp1]
-            exact hF3
-          · unfold Phi
-            apply phiK_mono
+        refine Tm.bind (resolveImport_tm cfg o sn hcc s h _ pat A) fun imp himp => ?_
+        obtain ⟨hm2, hF1, hF2, hF3⟩ := himp
+        have hnewlen : (List.take i s.d.tokens ++ imp.1 ++ List.drop (i + 2) s.d.tokens).length = i + imp.1.length + A := by
+          simp only [List.length_append, List.length_take, List.length_drop]; omega
+        have hmem : ∀ j : Nat, i ≤ j → ∀ t, (List.take i s.d.tokens ++ imp.1 ++ List.drop (i + 2) s.d.tokens)[j]? = some t →
+            t ∈ srcToks cfg o := by
+          intro j hj t ht
+          rw [List.append_assoc, List.getElem?_append_right (by simp only [List.length_take]; omega)] at ht
+          have hmm := List.mem_of_getElem? ht
+          rcases List.mem_append.mp hmm with hm | hm
+          · exact hm2 t hm
+          · obtain ⟨k, hk⟩ := List.getElem?_of_mem hm
+            rw [List.getElem?_drop] at hk
+            exact h.after (i + 2 + k) (by omega) t hk
+        refine ⟨⟨⟨⟨?_, ?_⟩, h.snip, h.body, hF1, hF2, ?_, h.keys⟩, ?_, ?_⟩, ?_, rfl, rfl, ?_, ?_⟩
+        · simp only; omega
+        · simp only [Disp.len, hnewlen]; omega
+        · intro j hj t ht
+          exact hmem j (by have : (i : Int) < (j : Int) := hj; omega) t ht
+        · simp only; omega
+        · intro t ht
+          simp only [Disp.tok?] at ht
+          unfold tokAt at ht
+          rw [if_pos (Int.natCast_nonneg i)] at ht
+          simp only [Int.toNat_natCast] at ht
+          exact hmem i (Nat.le_refl _) t ht
+        · simp only; omega
+        · -- the measure
+          have hKs : K s = A + 1 := by
+            unfold K; simp only [Disp.len]; omega
+          unfold Phi
+          rw [hKs]
+          have hKb : ∀ s' : PState, s'.d.len = ((i + imp.1.length + A : Nat) : Int) → s'.d.cursor = (i : Int) →
+              K (back s') = A + imp.1.length := by
+            intro s' h1 h2
             unfold K back
-            simp only [setCursor_cursor, setCursor_len]
+            simp only [setCursor_cursor, setCursor_len, h1, h2]
             omega
+          rw [hKb _ (by simp only [Disp.len, hnewlen]) rfl]
+          simp only [back]
+          exact hF3
+        · unfold Phi
+          apply phiK_mono
+          unfold K back
+          simp only [setCursor_cursor, setCursor_len]
+          omega
 
 
 /-! ### the measure along the parser's small steps -/
 
-theorem Phi_congr {cfg : Cfg} {s s' : PState} (hf : s'.frames = s.frames) (hl : s'.d.len = s.d.len)
-    (hc : s'.d.cursor = s.d.cursor) : Phi cfg s' = Phi cfg s := by
+theorem Phi_congr {cfg : Cfg} {sn : Snips} {s s' : PState} (hf : s'.frames = s.frames) (hl : s'.d.len = s.d.len)
+    (hc : s'.d.cursor = s.d.cursor) : Phi cfg sn s' = Phi cfg sn s := by
   unfold Phi K; rw [hf, hl, hc]
 
-theorem Phi_le_back (cfg : Cfg) (s : PState) : Phi cfg s ≤ Phi cfg (back s) := by
+theorem Phi_le_back (cfg : Cfg) (sn : Snips) (s : PState) : Phi cfg sn s ≤ Phi cfg sn (back s) := by
   unfold Phi
   apply phiK_mono
   unfold K back
   simp only [setCursor_cursor, setCursor_len]
   omega
 
-theorem tinv_of_d {cfg : Cfg} {o : List Token} {s s' : PState} (h : TInv cfg o s) (hd : s'.d = s.d)
-    (hs : s'.snippets = s.snippets) (hf : s'.frames = s.frames) (hk : ∀ k ∈ s'.keys, k.head? ≠ some lparen) : TInv cfg o s' :=
-  ⟨by rw [hd]; exact h.ok, by rw [hs]; exact h.snip, by rw [hf]; exact h.fok, by rw [hf]; exact h.names,
+theorem tinv_of_d {cfg : Cfg} {o : List Token} {sn : Snips} {s s' : PState} (h : TInv cfg o sn s) (hd : s'.d = s.d)
+    (hs : s'.snippets = s.snippets) (hf : s'.frames = s.frames) (hk : ∀ k ∈ s'.keys, KeyOK cfg o k) : TInv cfg o sn s' :=
+  ⟨by rw [hd]; exact h.ok, by rw [hs]; exact h.snip, h.body, by rw [hf]; exact h.fok, by rw [hf]; exact h.names,
    by rw [hd]; exact h.after, hk⟩
 
 /-- a successful `Next`: on a source token, measure strictly down; stepping back restores it -/
-theorem tnext {cfg : Cfg} {o : List Token} {s : PState} (h : TInv cfg o s) (ht : s.d.next.1 = true) :
-    TFresh cfg o { s with d := s.d.next.2 } ∧ Phi cfg { s with d := s.d.next.2 } + 1 ≤ Phi cfg s ∧
-    Phi cfg (back { s with d := s.d.next.2 }) = Phi cfg s ∧ (∃ t, s.d.next.2.tok? s.d.next.2.cursor = some t) := by
+theorem tnext {cfg : Cfg} {o : List Token} {sn : Snips} {s : PState} (h : TInv cfg o sn s) (ht : s.d.next.1 = true) :
+    TFresh cfg o sn { s with d := s.d.next.2 } ∧ Phi cfg sn { s with d := s.d.next.2 } + 1 ≤ Phi cfg sn s ∧
+    Phi cfg sn (back { s with d := s.d.next.2 }) = Phi cfg sn s ∧ (∃ t, s.d.next.2.tok? s.d.next.2.cursor = some t) := by
   obtain ⟨hs, hlt⟩ := next_spec s.d h.ok
   obtain ⟨hc, _⟩ := hs.2.2.1 ht
   have hb := hlt ht
@@ -394,7 +509,7 @@ theorem tnext {cfg : Cfg} {o : List Token} {s : PState} (h : TInv cfg o s) (ht :
   unfold cursorOk at hcur
   have hafter : ∀ i : Nat, s.d.cursor < (i : Int) → ∀ t, s.d.next.2.tokens[i]? = some t → t ∈ srcToks cfg o := by
     intro i hi t ht; rw [hs.1.tokens] at ht; exact h.after i hi t ht
-  refine ⟨⟨⟨hok1, h.snip, h.fok, h.names, fun i hi => hafter i (by simp only at hi; omega), h.keys⟩, h01, ?_⟩, ?_, ?_, ⟨t, htok⟩⟩
+  refine ⟨⟨⟨hok1, h.snip, h.body, h.fok, h.names, fun i hi => hafter i (by simp only at hi; omega), h.keys⟩, h01, ?_⟩, ?_, ?_, ⟨t, htok⟩⟩
   · intro t' ht'
     simp only [Disp.tok?] at ht'
     unfold tokAt at ht'
@@ -406,15 +521,15 @@ theorem tnext {cfg : Cfg} {o : List Token} {s : PState} (h : TInv cfg o s) (ht :
     unfold Phi
     rw [hK]
     simp only [phiK]
-    have := wt_pos cfg s.frames (K { s with d := s.d.next.2 } + 1)
+    have := wt_pos cfg sn s.frames (K { s with d := s.d.next.2 } + 1)
     omega
   · refine Phi_congr (s := s) (s' := back { s with d := s.d.next.2 }) rfl ?_ ?_
     · simp only [back, setCursor_len, hl]
     · simp only [back, setCursor_cursor, hc]; omega
 
-theorem tback {cfg : Cfg} {o : List Token} {s : PState} (h : TFresh cfg o s) : TInv cfg o (back s) := by
+theorem tback {cfg : Cfg} {o : List Token} {sn : Snips} {s : PState} (h : TFresh cfg o sn s) : TInv cfg o sn (back s) := by
   obtain ⟨hi, h0, hf⟩ := h
-  refine ⟨ok_back ⟨hi.ok, h0⟩, hi.snip, hi.fok, hi.names, ?_, hi.keys⟩
+  refine ⟨ok_back ⟨hi.ok, h0⟩, hi.snip, hi.body, hi.fok, hi.names, ?_, hi.keys⟩
   intro i hlt t ht
   simp only [back, setCursor_cursor, setCursor_tokens] at hlt ht
   by_cases hic : s.d.cursor < (i : Int)
@@ -425,24 +540,27 @@ theorem tback {cfg : Cfg} {o : List Token} {s : PState} (h : TFresh cfg o s) : T
     rw [if_pos h0, ← this]
     simpa using ht
 
-theorem tfresh_val {cfg : Cfg} {o : List Token} {s : PState} (h : TFresh cfg o s) (hyp : Hyp cfg o) :
-    ∃ r, envR cfg s.d.val = .ok r ∧ r.head? ≠ some lparen := by
+/-- the value under the cursor expands; the expansion is empty or that of a source token -/
+theorem tfresh_val {cfg : Cfg} {o : List Token} {sn : Snips} {s : PState} (h : TFresh cfg o sn s) (hyp : HypS cfg o) :
+    ∃ r, envR cfg s.d.val = .ok r ∧ (r = [] ∨ ∃ t ∈ srcToks cfg o, envR cfg t.text = .ok r) := by
   unfold Disp.val
   cases ht : s.d.tok? s.d.cursor with
-  | none => exact ⟨[], envR_nil cfg hyp.2.1, by simp⟩
-  | some t => exact hyp.2.2 t (h.2.2 t ht)
+  | none => exact ⟨[], envR_nil cfg hyp.2.1, Or.inl rfl⟩
+  | some t =>
+    obtain ⟨r, hr⟩ := hyp.2.2 t (h.2.2 t ht)
+    exact ⟨r, hr, Or.inr ⟨t, h.2.2 t ht, hr⟩⟩
 
-theorem appendCur_tm (cfg : Cfg) (dir : Bytes) {o : List Token} (hyp : Hyp cfg o) {s : PState} (h : TFresh cfg o s)
-    (ht : ∃ t, s.d.tok? s.d.cursor = some t) :
-    Tm (fun s' => TInv cfg o s' ∧ s'.frames = s.frames ∧ s'.d.len = s.d.len ∧ s'.d.cursor = s.d.cursor ∧ 0 ≤ s'.d.cursor)
+theorem appendCur_tm (cfg : Cfg) (dir : Bytes) {o : List Token} {sn : Snips} (hyp : HypS cfg o) {s : PState}
+    (h : TFresh cfg o sn s) (ht : ∃ t, s.d.tok? s.d.cursor = some t) :
+    Tm (fun s' => TInv cfg o sn s' ∧ s'.frames = s.frames ∧ s'.d.len = s.d.len ∧ s'.d.cursor = s.d.cursor ∧ 0 ≤ s'.d.cursor)
       (appendCur cfg dir s) := by
   obtain ⟨t, ht⟩ := ht
-  obtain ⟨r, hr, _⟩ := hyp.2.2 t (h.2.2 t ht)
+  obtain ⟨r, hr⟩ := hyp.2.2 t (h.2.2 t ht)
   unfold appendCur
   rw [ht]
   simp only [hr, Res.bind]
   obtain ⟨hi, h0, _⟩ := h
-  refine ⟨⟨?_, hi.snip, hi.fok, hi.names, ?_, hi.keys⟩, rfl, ?_, rfl, h0⟩
+  refine ⟨⟨?_, hi.snip, hi.body, hi.fok, hi.names, ?_, hi.keys⟩, rfl, ?_, rfl, h0⟩
   · have := hi.ok
     unfold cursorOk at this ⊢
     simp only [Disp.len, List.length_set] at this ⊢
@@ -455,9 +573,9 @@ theorem appendCur_tm (cfg : Cfg) (dir : Bytes) {o : List Token} (hyp : Hyp cfg o
     exact hi.after i hlt t' ht'
   · simp only [Disp.len, List.length_set]
 
-theorem directiveLoop_tm (cfg : Cfg) (dir : Bytes) {o : List Token} (hyp : Hyp cfg o) (fuel : Nat) (s : PState) (n : Nat)
-    (h : TInv cfg o s) (hf : Phi cfg s < fuel) :
-    Tm (fun s' => TInv cfg o s' ∧ Phi cfg s' ≤ Phi cfg s) (directiveLoop cfg dir fuel s n) := by
+theorem directiveLoop_tm (cfg : Cfg) (dir : Bytes) {o : List Token} {sn : Snips} (hyp : HypS cfg o) (fuel : Nat) (s : PState)
+    (n : Nat) (h : TInv cfg o sn s) (hf : Phi cfg sn s < fuel) :
+    Tm (fun s' => TInv cfg o sn s' ∧ Phi cfg sn s' ≤ Phi cfg sn s) (directiveLoop cfg dir fuel s n) := by
   induction fuel generalizing s n with
   | zero => omega
   | succ k ih =>
@@ -472,12 +590,12 @@ theorem directiveLoop_tm (cfg : Cfg) (dir : Bytes) {o : List Token} (hyp : Hyp c
     | true =>
       simp only [Bool.not_true, Bool.false_eq_true, if_false]
       obtain ⟨hfr, hphi, hback, htok⟩ := tnext h hn
-      have happ : ∀ m, Tm (fun s' => TInv cfg o s' ∧ Phi cfg s' ≤ Phi cfg s)
+      have happ : ∀ m, Tm (fun s' => TInv cfg o sn s' ∧ Phi cfg sn s' ≤ Phi cfg sn s)
           ((appendCur cfg dir { s with d := s.d.next.2 }).bind fun s2 => directiveLoop cfg dir k s2 m) := by
         intro m
         refine Tm.bind (appendCur_tm cfg dir hyp hfr htok) fun s2 h2 => ?_
         obtain ⟨hi2, hf2, hl2, hc2, _⟩ := h2
-        have he : Phi cfg s2 = Phi cfg { s with d := s.d.next.2 } := Phi_congr hf2 hl2 hc2
+        have he : Phi cfg sn s2 = Phi cfg sn { s with d := s.d.next.2 } := Phi_congr hf2 hl2 hc2
         exact (ih s2 m hi2 (by omega)).mono fun s' hs' => ⟨hs'.1, by omega⟩
       split
       · exact happ _
@@ -488,14 +606,14 @@ theorem directiveLoop_tm (cfg : Cfg) (dir : Bytes) {o : List Token} (hyp : Hyp c
           · split
             · exact trivial
             · split
-              · refine Tm.bind (doImport_tm cfg o hyp _ hfr.1 hfr.2.1) fun s2 h2 => ?_
+              · refine Tm.bind (doImport_tm cfg o sn hyp _ hfr.1 hfr.2.1) fun s2 h2 => ?_
                 obtain ⟨hfr2, _, _, _, hb2, _⟩ := h2
                 exact (ih _ _ (tback hfr2) (by omega)).mono fun s' hs' => ⟨hs'.1, by omega⟩
               · exact happ _
 
-theorem directive_tm (cfg : Cfg) {o : List Token} (hyp : Hyp cfg o) (fuel : Nat) (s : PState)
-    (h : TFresh cfg o s) (ht : ∃ t, s.d.tok? s.d.cursor = some t) (hf : Phi cfg s < fuel) :
-    Tm (fun s' => TInv cfg o s' ∧ Phi cfg s' ≤ Phi cfg s) (directive cfg fuel s) := by
+theorem directive_tm (cfg : Cfg) {o : List Token} {sn : Snips} (hyp : HypS cfg o) (fuel : Nat) (s : PState)
+    (h : TFresh cfg o sn s) (ht : ∃ t, s.d.tok? s.d.cursor = some t) (hf : Phi cfg sn s < fuel) :
+    Tm (fun s' => TInv cfg o sn s' ∧ Phi cfg sn s' ≤ Phi cfg sn s) (directive cfg fuel s) := by
   obtain ⟨t, ht⟩ := ht
   obtain ⟨r, hr, _⟩ := tfresh_val h hyp
   unfold directive
@@ -505,10 +623,10 @@ theorem directive_tm (cfg : Cfg) {o : List Token} (hyp : Hyp cfg o) (fuel : Nat)
   · rw [ht]
     exact directiveLoop_tm cfg r hyp fuel _ 0 (tinv_of_d h.1 rfl rfl rfl h.1.keys) hf
 
-theorem directives_tm (cfg : Cfg) {o : List Token} (hyp : Hyp cfg o) (fuel : Nat) (s : PState)
-    (h : TInv cfg o s) (hf : Phi cfg s < fuel) :
-    Tm (fun s' => TInv cfg o s' ∧ Phi cfg s' ≤ Phi cfg s ∧
-      (s.d.next.1 = true → Phi cfg s' ≤ Phi cfg { s with d := s.d.next.2 })) (directives cfg fuel s) := by
+theorem directives_tm (cfg : Cfg) {o : List Token} {sn : Snips} (hyp : HypS cfg o) (fuel : Nat) (s : PState)
+    (h : TInv cfg o sn s) (hf : Phi cfg sn s < fuel) :
+    Tm (fun s' => TInv cfg o sn s' ∧ Phi cfg sn s' ≤ Phi cfg sn s ∧
+      (s.d.next.1 = true → Phi cfg sn s' ≤ Phi cfg sn { s with d := s.d.next.2 })) (directives cfg fuel s) := by
   induction fuel generalizing s with
   | zero => omega
   | succ k ih =>
@@ -524,7 +642,7 @@ theorem directives_tm (cfg : Cfg) {o : List Token} (hyp : Hyp cfg o) (fuel : Nat
       split
       · exact ⟨hfr.1, by omega, fun _ => Nat.le_refl _⟩
       · split
-        · refine Tm.bind (doImport_tm cfg o hyp _ hfr.1 hfr.2.1) fun s2 h2 => ?_
+        · refine Tm.bind (doImport_tm cfg o sn hyp _ hfr.1 hfr.2.1) fun s2 h2 => ?_
           obtain ⟨hfr2, _, _, _, hb2, _⟩ := h2
           exact (ih _ (tback hfr2) (by omega)).mono fun s' hs' => ⟨hs'.1, by have := hs'.2.1; omega, fun _ => by have := hs'.2.1; omega⟩
         · refine Tm.bind (directive_tm cfg hyp (k + 1) _ hfr htok (by omega)) fun s2 h2 => ?_
@@ -540,41 +658,46 @@ theorem head_dropLast_ne {l : Bytes} (h : l.head? ≠ some lparen) : l.dropLast.
     | nil => simp
     | cons b u => simpa [List.dropLast] using h
 
-theorem addKey_keys {keys : List Bytes} {e : Bool} {tkn : Bytes} (hk : ∀ k ∈ keys, k.head? ≠ some lparen)
-    (ht : tkn.head? ≠ some lparen) : ∀ k ∈ (addKey keys e tkn).1, k.head? ≠ some lparen := by
+theorem addKey_keys {cfg : Cfg} {o : List Token} {keys : List Bytes} {e : Bool} {tkn : Bytes} (hk : ∀ k ∈ keys, KeyOK cfg o k)
+    (ht : tkn = [] ∨ ∃ t ∈ srcToks cfg o, envR cfg t.text = .ok tkn) : ∀ k ∈ (addKey keys e tkn).1, KeyOK cfg o k := by
   unfold addKey
   split
   · exact hk
-  · split
-    · intro k hkm
-      rcases List.mem_append.mp hkm with h1 | h1
-      · exact hk k h1
-      · simp only [List.mem_singleton] at h1; rw [h1]; exact head_dropLast_ne ht
-    · intro k hkm
-      rcases List.mem_append.mp hkm with h1 | h1
-      · exact hk k h1
-      · simp only [List.mem_singleton] at h1; rw [h1]; exact ht
+  · rename_i hne
+    rcases ht with rfl | ⟨t, htm, hr⟩
+    · exact absurd rfl hne
+    · split
+      · intro k hkm
+        rcases List.mem_append.mp hkm with h1 | h1
+        · exact hk k h1
+        · simp only [List.mem_singleton] at h1; exact ⟨t, htm, tkn, hr, Or.inr h1⟩
+      · intro k hkm
+        rcases List.mem_append.mp hkm with h1 | h1
+        · exact hk k h1
+        · simp only [List.mem_singleton] at h1; exact ⟨t, htm, tkn, hr, Or.inl h1⟩
 
-theorem isSnippet_none {keys : List Bytes} (hk : ∀ k ∈ keys, k.head? ≠ some lparen) : isSnippet keys = none := by
+theorem isSnippet_none_of_head {k : Bytes} (hk : k.head? ≠ some lparen) : isSnippet [k] = none := by
   unfold isSnippet
-  split
-  · rename_i k
-    have := hk k List.mem_cons_self
-    have hb : (k.head? == some lparen) = false := by simpa using this
-    simp [hb]
-  · rfl
+  have hb : (k.head? == some lparen) = false := by simpa using hk
+  simp [hb]
 
-theorem tfresh_keys {cfg : Cfg} {o : List Token} {s : PState} (h : TFresh cfg o s) (ks : List Bytes)
-    (hk : ∀ k ∈ ks, k.head? ≠ some lparen) : TFresh cfg o { s with keys := ks } :=
+theorem isSnippet_some {keys : List Bytes} {n : Bytes} (h : isSnippet keys = some n) : ∃ k, keys = [k] := by
+  unfold isSnippet at h
+  split at h
+  · rename_i k; exact ⟨k, rfl⟩
+  · cases h
+
+theorem tfresh_keys {cfg : Cfg} {o : List Token} {sn : Snips} {s : PState} (h : TFresh cfg o sn s) (ks : List Bytes)
+    (hk : ∀ k ∈ ks, KeyOK cfg o k) : TFresh cfg o sn { s with keys := ks } :=
   ⟨tinv_of_d h.1 rfl rfl rfl hk, h.2.1, h.2.2⟩
 
 /-- where `addresses` stops, and what it did to the measure (with and without the token under the cursor) -/
-def AddrPostT (cfg : Cfg) (o : List Token) (s s' : PState) : Prop :=
-  TInv cfg o s' ∧ Phi cfg s' ≤ Phi cfg s ∧ Phi cfg (back s') ≤ Phi cfg (back s) ∧
-  (s'.eof = true ∨ (TFresh cfg o s' ∧ ∃ t, s'.d.tok? s'.d.cursor = some t))
+def AddrPostT (cfg : Cfg) (o : List Token) (sn : Snips) (s s' : PState) : Prop :=
+  TInv cfg o sn s' ∧ Phi cfg sn s' ≤ Phi cfg sn s ∧ Phi cfg sn (back s') ≤ Phi cfg sn (back s) ∧
+  (s'.eof = true ∨ (TFresh cfg o sn s' ∧ ∃ t, s'.d.tok? s'.d.cursor = some t))
 
-theorem addresses_tm (cfg : Cfg) {o : List Token} (hyp : Hyp cfg o) (fuel : Nat) (s : PState) (e : Bool)
-    (h : TFresh cfg o s) (hf : Phi cfg s < fuel) : Tm (AddrPostT cfg o s) (addresses cfg fuel s e) := by
+theorem addresses_tm (cfg : Cfg) {o : List Token} {sn : Snips} (hyp : HypS cfg o) (fuel : Nat) (s : PState) (e : Bool)
+    (h : TFresh cfg o sn s) (hf : Phi cfg sn s < fuel) : Tm (AddrPostT cfg o sn s) (addresses cfg fuel s e) := by
   induction fuel generalizing s e with
   | zero => omega
   | succ k ih =>
@@ -583,11 +706,11 @@ theorem addresses_tm (cfg : Cfg) {o : List Token} (hyp : Hyp cfg o) (fuel : Nat)
     simp only [hr, Res.bind]
     split
     · -- import
-      refine Tm.bind (doImport_tm cfg o hyp s h.1 h.2.1) fun s2 h2 => ?_
+      refine Tm.bind (doImport_tm cfg o sn hyp s h.1 h.2.1) fun s2 h2 => ?_
       obtain ⟨hfr2, _, _, _, hb2, hle2⟩ := h2
       refine (ih s2 e hfr2 (by omega)).mono fun s' hs' => ?_
       obtain ⟨p1, p2, p3, p4⟩ := hs'
-      have := Phi_le_back cfg s
+      have := Phi_le_back cfg sn s
       exact ⟨p1, by omega, by omega, p4⟩
     · split
       · rename_i hlb
@@ -609,7 +732,7 @@ theorem addresses_tm (cfg : Cfg) {o : List Token} (hyp : Hyp cfg o) (fuel : Nat)
           split
           · exact trivial
           · simp only [if_true]
-            have hti : TInv cfg o { s with d := s.d.next.2, keys := (addKey s.keys e r).1, eof := true } :=
+            have hti : TInv cfg o sn { s with d := s.d.next.2, keys := (addKey s.keys e r).1, eof := true } :=
               tinv_of_d h.1 hd rfl rfl hkeys
             refine ⟨hti, ?_, ?_, Or.inl rfl⟩
             · exact Nat.le_of_eq (Phi_congr rfl (by simp only [hd]) (by simp only [hd]))
@@ -617,26 +740,26 @@ theorem addresses_tm (cfg : Cfg) {o : List Token} (hyp : Hyp cfg o) (fuel : Nat)
         | true =>
           obtain ⟨hfr, hphi, hback, htok⟩ := tnext h.1 hn
           simp only [Bool.not_true, Bool.and_false, Bool.false_eq_true, if_false]
-          have hfr' : TFresh cfg o { s with d := s.d.next.2, keys := (addKey s.keys e r).1 } := tfresh_keys hfr _ hkeys
-          have hp1 : Phi cfg { s with d := s.d.next.2, keys := (addKey s.keys e r).1 } = Phi cfg { s with d := s.d.next.2 } :=
+          have hfr' : TFresh cfg o sn { s with d := s.d.next.2, keys := (addKey s.keys e r).1 } := tfresh_keys hfr _ hkeys
+          have hp1 : Phi cfg sn { s with d := s.d.next.2, keys := (addKey s.keys e r).1 } = Phi cfg sn { s with d := s.d.next.2 } :=
             Phi_congr rfl rfl rfl
-          have hp2 : Phi cfg (back { s with d := s.d.next.2, keys := (addKey s.keys e r).1 }) = Phi cfg s := by
+          have hp2 : Phi cfg sn (back { s with d := s.d.next.2, keys := (addKey s.keys e r).1 }) = Phi cfg sn s := by
             rw [← hback]; exact Phi_congr rfl rfl rfl
-          have hlb := Phi_le_back cfg s
+          have hlb := Phi_le_back cfg sn s
           split
           · exact ⟨hfr'.1, by omega, by omega, Or.inr ⟨hfr', htok⟩⟩
           · refine (ih _ _ hfr' (by omega)).mono fun s' hs' => ?_
             obtain ⟨p1, p2, p3, p4⟩ := hs'
             exact ⟨p1, by omega, by omega, p4⟩
 
-theorem blockContents_tm (cfg : Cfg) {o : List Token} (hyp : Hyp cfg o) (fuel : Nat) (s : PState)
-    (h : TFresh cfg o s) (ht : ∃ t, s.d.tok? s.d.cursor = some t) (hf : Phi cfg (back s) < fuel) :
-    Tm (fun s' => TInv cfg o s' ∧ Phi cfg s' ≤ Phi cfg s) (blockContents cfg fuel s) := by
+theorem blockContents_tm (cfg : Cfg) {o : List Token} {sn : Snips} (hyp : HypS cfg o) (fuel : Nat) (s : PState)
+    (h : TFresh cfg o sn s) (ht : ∃ t, s.d.tok? s.d.cursor = some t) (hf : Phi cfg sn (back s) < fuel) :
+    Tm (fun s' => TInv cfg o sn s' ∧ Phi cfg sn s' ≤ Phi cfg sn s) (blockContents cfg fuel s) := by
   obtain ⟨t, ht⟩ := ht
   have hlt : s.d.cursor < s.d.len := by
     have := (tokAt_some (show tokAt s.d.tokens s.d.cursor = some t from ht)).2
     simp only [Disp.len]; exact this
-  have hlb := Phi_le_back cfg s
+  have hlb := Phi_le_back cfg sn s
   unfold blockContents
   simp only
   by_cases hno : (s.d.val != lbrace) = true
@@ -655,7 +778,7 @@ theorem blockContents_tm (cfg : Cfg) {o : List Token} (hyp : Hyp cfg o) (fuel : 
     refine Tm.bind (directives_tm cfg hyp fuel _ hb hf) fun s1 h1 => ?_
     obtain ⟨hi1, _, hstep⟩ := h1
     have h2 := hstep hnx
-    have he : Phi cfg { back s with d := (back s).d.next.2 } = Phi cfg s := by
+    have he : Phi cfg sn { back s with d := (back s).d.next.2 } = Phi cfg sn s := by
       refine Phi_congr (s := s) (s' := { back s with d := (back s).d.next.2 }) rfl ?_ ?_
       · show (back s).d.next.2.len = s.d.len
         rw [hnx2]; simp only [back, setCursor_len]
@@ -669,28 +792,279 @@ theorem blockContents_tm (cfg : Cfg) {o : List Token} (hyp : Hyp cfg o) (fuel : 
     · exact trivial
     · exact ⟨h1.1, h1.2.1⟩
 
-theorem begin_tm (cfg : Cfg) {o : List Token} (hyp : Hyp cfg o) (fuel : Nat) (s : PState)
-    (h : TFresh cfg o s) (hf : Phi cfg (back s) < fuel) :
-    Tm (fun s' => TInv cfg o s' ∧ Phi cfg s' ≤ Phi cfg s) (begin cfg fuel s) := by
-  have hlb := Phi_le_back cfg s
+/-- the collecting loop of a snippet definition only reads on: a fuel of (tokens ahead + 1) is enough, and what it
+collects are tokens that were ahead of the cursor -/
+theorem snippetLoop_tm (fuel : Nat) (s : PState) (c : Nat) (acc : List Token) (hok : cursorOk s.d) (hf : K s < fuel) :
+    Tm (fun r => r.1 = { s with d := r.1.d } ∧ r.1.d.tokens = s.d.tokens ∧ s.d.cursor ≤ r.1.d.cursor ∧ cursorOk r.1.d ∧
+      ∀ t ∈ r.2, t ∈ acc ∨ ∃ i : Nat, s.d.cursor < (i : Int) ∧ s.d.tokens[i]? = some t) (snippetLoop fuel s c acc) := by
+  induction fuel generalizing s c acc with
+  | zero => omega
+  | succ k ih =>
+    unfold snippetLoop
+    simp only
+    cases hn : s.d.next.1 with
+    | false =>
+      simp only [Bool.not_false, if_true]
+      split
+      · exact trivial
+      · exact ⟨rfl, rfl, Int.le_refl _, hok, fun t ht => Or.inl ht⟩
+    | true =>
+      simp only [Bool.not_true, Bool.false_eq_true, if_false]
+      obtain ⟨hs, hlt⟩ := next_spec s.d hok
+      obtain ⟨hc, _⟩ := hs.2.2.1 hn
+      have hl := hs.mono.len
+      have htk : s.d.next.2.tokens = s.d.tokens := hs.1.tokens
+      obtain ⟨hok1, h01, t, htok⟩ := next_true_tok hok hn
+      rw [htok]
+      have hcur := hok; unfold cursorOk at hcur
+      have hK : K { s with d := s.d.next.2 } + 1 = K s := by
+        have := hlt hn
+        unfold K; simp only [hl, hc]; omega
+      have htidx : s.d.tokens[s.d.next.2.cursor.toNat]? = some t := by
+        simp only [Disp.tok?] at htok
+        unfold tokAt at htok
+        rw [if_pos h01, htk] at htok
+        exact htok
+      have hrec : ∀ c', Tm (fun r => r.1 = { s with d := r.1.d } ∧ r.1.d.tokens = s.d.tokens ∧ s.d.cursor ≤ r.1.d.cursor ∧
+          cursorOk r.1.d ∧ ∀ t ∈ r.2, t ∈ acc ∨ ∃ i : Nat, s.d.cursor < (i : Int) ∧ s.d.tokens[i]? = some t)
+          (snippetLoop k { s with d := s.d.next.2 } c' (acc ++ [t])) := by
+        intro c'
+        refine (ih { s with d := s.d.next.2 } c' (acc ++ [t]) hok1 (by omega)).mono fun r hr => ?_
+        obtain ⟨r1, r2, r3, r4, r5⟩ := hr
+        simp only at r1 r2 r3 r5
+        refine ⟨r1, by rw [r2, htk], by omega, r4, fun t' ht' => ?_⟩
+        rcases r5 t' ht' with hm | ⟨i, hi, hti⟩
+        · rcases List.mem_append.mp hm with hm | hm
+          · exact Or.inl hm
+          · simp only [List.mem_singleton] at hm
+            subst hm
+            exact Or.inr ⟨s.d.next.2.cursor.toNat, by omega, htidx⟩
+        · exact Or.inr ⟨i, by omega, by rw [← htk]; exact hti⟩
+      by_cases hv : (s.d.next.2.val == rbrace) = true
+      · simp only [hv, if_true, Bool.true_and]
+        split
+        · exact ⟨rfl, htk, by simp only; omega, hok1, fun t ht => Or.inl ht⟩
+        · exact hrec _
+      · simp only [hv, Bool.false_and, Bool.false_eq_true, if_false]
+        exact hrec _
+
+theorem srcNames_append (cfg : Cfg) (sn : Snips) (p : Bytes × List Token) {n : ImpName} (h : n ∈ srcNames cfg sn) :
+    n ∈ srcNames cfg (sn ++ [p]) := by
+  unfold srcNames at h ⊢
+  rcases List.mem_append.mp h with h | h
+  · exact List.mem_append_left _ h
+  · exact List.mem_append_right _ (by rw [List.map_append]; exact List.mem_append_left _ h)
+
+/-- what `begin` leaves: the same snippet table and no more weight ahead — or ONE new snippet, under a name that was not
+defined and is one of the candidates -/
+def BeginPost (cfg : Cfg) (o : List Token) (sn : Snips) (s s' : PState) : Prop :=
+  (TInv cfg o sn s' ∧ Phi cfg sn s' ≤ Phi cfg sn s) ∨
+  (∃ name body, name ∉ sn.map (·.1) ∧ name ∈ candNames cfg o ∧ TInv cfg o (sn ++ [(name, body)]) s')
+
+theorem begin_tm (cfg : Cfg) {o : List Token} {sn : Snips} (hyp : HypS cfg o) (fuel : Nat) (s : PState)
+    (h : TFresh cfg o sn s) (hf : Phi cfg sn (back s) < fuel) :
+    Tm (BeginPost cfg o sn s) (begin cfg fuel s) := by
+  have hlb := Phi_le_back cfg sn s
   unfold begin
   split
-  · exact ⟨h.1, Nat.le_refl _⟩
+  · exact Or.inl ⟨h.1, Nat.le_refl _⟩
   · refine Tm.bind (addresses_tm cfg hyp fuel s false h (by omega)) fun s1 h1 => ?_
     obtain ⟨hi1, hp1, hpb1, hcase⟩ := h1
     split
-    · exact ⟨hi1, hp1⟩
+    · exact Or.inl ⟨hi1, hp1⟩
     · rename_i hneof
       cases hcase with
       | inl he => exact absurd he hneof
       | inr hfr =>
         obtain ⟨hfr1, htok1⟩ := hfr
-        rw [isSnippet_none hi1.keys]
-        simp only
-        exact (blockContents_tm cfg hyp fuel s1 hfr1 htok1 (by omega)).mono fun s' hs' => ⟨hs'.1, by have := hs'.2; omega⟩
+        split
+        · rename_i name hname
+          split
+          · exact trivial
+          · rename_i hnew
+            have hnone : lookupSnippet sn name = none := by
+              rw [hi1.snip] at hnew
+              cases hl : lookupSnippet sn name with
+              | none => rfl
+              | some b => rw [hl] at hnew; simp at hnew
+            unfold snippetTokens
+            split
+            · exact trivial
+            · have hK := K_le_Phi cfg sn s1
+              refine Tm.bind (snippetLoop_tm fuel s1 1 [] hi1.ok (by omega)) fun st hst => ?_
+              obtain ⟨q1, q2, q3, q4, q5⟩ := hst
+              obtain ⟨k, hk⟩ := isSnippet_some hname
+              have hcand : name ∈ candNames cfg o :=
+                candNames_mem (hi1.keys k (by rw [hk]; exact List.mem_cons_self)) (by rw [← hk]; exact hname)
+              have hsn : st.1.snippets = sn := by rw [q1]; exact hi1.snip
+              have hfrm : st.1.frames = s1.frames := by rw [q1]
+              have hbody : ∀ t ∈ st.2, t ∈ srcToks cfg o := by
+                intro t ht
+                rcases q5 t ht with hm | ⟨i, hi, hti⟩
+                · cases hm
+                · exact hi1.after i hi t hti
+              refine Or.inr ⟨name, st.2, lookupSnippet_none hnone, hcand, ⟨q4, ?_, ?_, ?_, ?_, ?_, ?_⟩⟩
+              · show st.1.snippets ++ [(name, st.2)] = sn ++ [(name, st.2)]
+                rw [hsn]
+              · intro p hp t ht
+                rcases List.mem_append.mp hp with hp | hp
+                · exact hi1.body p hp t ht
+                · simp only [List.mem_singleton] at hp
+                  subst hp
+                  exact hbody t ht
+              · show FOK st.1.frames
+                rw [hfrm]; exact hi1.fok
+              · intro f hfm e he
+                have hfm' : f ∈ s1.frames := by rw [← hfrm]; exact hfm
+                exact srcNames_append cfg sn _ (hi1.names f hfm' e he)
+              · intro i hi t ht
+                simp only at hi ht
+                rw [q2] at ht
+                exact hi1.after i (by omega) t ht
+              · intro k hk; cases hk
+        · exact (blockContents_tm cfg hyp fuel s1 hfr1 htok1 (by omega)).mono fun s' hs' =>
+            Or.inl ⟨hs'.1, by have := hs'.2; omega⟩
+
+/-! ### the top-level loop -/
+
+theorem parseAll_done (cfg : Cfg) (s : PState) (bs : List ServerBlock) (hn : s.d.next.1 = false) (fuel : Nat) (hf : 1 ≤ fuel) :
+    Tm (fun _ => True) (parseAll cfg fuel s bs) := by
+  obtain ⟨k, rfl⟩ : ∃ k, fuel = k + 1 := ⟨fuel - 1, by omega⟩
+  unfold parseAll
+  simp only [hn, Bool.not_false, if_true]
+  exact trivial
+
+/-- while no snippet is defined the loop runs on weight; a definition hands over to `hB` -/
+theorem parseAll_total_aux (cfg : Cfg) {o : List Token} (hyp : HypS cfg o) (sn : Snips)
+    (hB : ∀ name body s' bs', name ∉ sn.map (·.1) → name ∈ candNames cfg o → TInv cfg o (sn ++ [(name, body)]) s' →
+      ∃ f0, ∀ fuel, f0 ≤ fuel → Tm (fun _ => True) (parseAll cfg fuel s' bs')) :
+    ∀ (p : Nat) (s : PState) (bs : List ServerBlock), TInv cfg o sn s → Phi cfg sn s ≤ p →
+      ∃ f0, ∀ fuel, f0 ≤ fuel → Tm (fun _ => True) (parseAll cfg fuel s bs) := by
+  intro p
+  induction p with
+  | zero =>
+    intro s bs h hp
+    cases hn : s.d.next.1 with
+    | false => exact ⟨1, fun fuel hf => parseAll_done cfg s bs hn fuel hf⟩
+    | true => have := (tnext h hn).2.1; omega
+  | succ p' ih =>
+    intro s bs h hp
+    cases hn : s.d.next.1 with
+    | false => exact ⟨1, fun fuel hf => parseAll_done cfg s bs hn fuel hf⟩
+    | true =>
+      obtain ⟨hfr, hphi, hback, _⟩ := tnext h hn
+      have hfr' : TFresh cfg o sn { s with d := s.d.next.2, keys := [], btoks := [] } :=
+        ⟨tinv_of_d hfr.1 rfl rfl rfl (fun k hk => by cases hk), hfr.2.1, hfr.2.2⟩
+      have hp1 : Phi cfg sn { s with d := s.d.next.2, keys := [], btoks := [] } = Phi cfg sn { s with d := s.d.next.2 } :=
+        Phi_congr rfl rfl rfl
+      have hp2 : Phi cfg sn (back { s with d := s.d.next.2, keys := [], btoks := [] }) = Phi cfg sn s := by
+        rw [← hback]; exact Phi_congr rfl rfl rfl
+      have hb := begin_tm cfg hyp (Phi cfg sn s + 1) _ hfr' (by omega)
+      have hstep : ∀ k, Phi cfg sn s + 1 ≤ k + 1 →
+          begin cfg (k + 1) { s with d := s.d.next.2, keys := [], btoks := [] } =
+          begin cfg (Phi cfg sn s + 1) { s with d := s.d.next.2, keys := [], btoks := [] } :=
+        fun k hk => Res.le_eq (begin_mono cfg _ _ hk _) hb.ne_timeout
+      cases hr : begin cfg (Phi cfg sn s + 1) { s with d := s.d.next.2, keys := [], btoks := [] } with
+      | timeout => rw [hr] at hb; exact hb.elim
+      | err c fl l =>
+        refine ⟨Phi cfg sn s + 1, fun fuel hf => ?_⟩
+        obtain ⟨k, rfl⟩ : ∃ k, fuel = k + 1 := ⟨fuel - 1, by omega⟩
+        unfold parseAll
+        simp only [hn, Bool.not_true, Bool.false_eq_true, if_false]
+        rw [hstep k hf, hr]
+        exact trivial
+      | panic m =>
+        refine ⟨Phi cfg sn s + 1, fun fuel hf => ?_⟩
+        obtain ⟨k, rfl⟩ : ∃ k, fuel = k + 1 := ⟨fuel - 1, by omega⟩
+        unfold parseAll
+        simp only [hn, Bool.not_true, Bool.false_eq_true, if_false]
+        rw [hstep k hf, hr]
+        exact trivial
+      | ok s1 =>
+        rw [hr] at hb
+        have hrest : ∃ f1, ∀ fuel, f1 ≤ fuel → Tm (fun _ => True)
+            (parseAll cfg fuel s1 (if s1.keys.isEmpty then bs else bs ++ [⟨s1.keys, s1.btoks⟩])) := by
+          rcases hb with ⟨hi1, hle⟩ | ⟨name, body, h1, h2, h3⟩
+          · exact ih s1 _ hi1 (by omega)
+          · exact hB name body s1 _ h1 h2 h3
+        obtain ⟨f1, hf1⟩ := hrest
+        refine ⟨max (Phi cfg sn s + 1) (f1 + 1), fun fuel hf => ?_⟩
+        obtain ⟨k, rfl⟩ : ∃ k, fuel = k + 1 := ⟨fuel - 1, by omega⟩
+        unfold parseAll
+        simp only [hn, Bool.not_true, Bool.false_eq_true, if_false]
+        rw [hstep k (by omega), hr]
+        exact hf1 k (by omega)
+
+/-- the snippet table: distinct names, all of them candidates -/
+def SnOK (cfg : Cfg) (o : List Token) (sn : Snips) : Prop :=
+  (sn.map (·.1)).Nodup ∧ ∀ n ∈ sn.map (·.1), n ∈ candNames cfg o
+
+theorem snOK_length {cfg : Cfg} {o : List Token} {sn : Snips} (h : SnOK cfg o sn) : sn.length ≤ (candNames cfg o).length := by
+  have := nodup_length_le (sn.map (·.1)) (candNames cfg o) h.1 h.2
+  simpa using this
+
+theorem snOK_append {cfg : Cfg} {o : List Token} {sn : Snips} (h : SnOK cfg o sn) {name : Bytes} (body : List Token)
+    (h1 : name ∉ sn.map (·.1)) (h2 : name ∈ candNames cfg o) : SnOK cfg o (sn ++ [(name, body)]) := by
+  refine ⟨?_, ?_⟩
+  · rw [List.map_append]
+    refine List.nodup_append.mpr ⟨h.1, by simp, ?_⟩
+    intro a ha b hb
+    simp only [List.map_cons, List.map_nil, List.mem_singleton] at hb
+    subst hb
+    intro hab; subst hab; exact h1 ha
+  · intro n hn
+    rw [List.map_append] at hn
+    rcases List.mem_append.mp hn with hn | hn
+    · exact h.2 n hn
+    · simp only [List.map_cons, List.map_nil, List.mem_singleton] at hn
+      subst hn; exact h2
+
+/-- the loop of `parseAll` ends, snippet definitions included: lexicographic induction over (candidate names not yet
+defined, weight ahead) -/
+theorem parseAll_total (cfg : Cfg) {o : List Token} (hyp : HypS cfg o) (u : Nat) :
+    ∀ (sn : Snips), SnOK cfg o sn → (candNames cfg o).length - sn.length ≤ u →
+      ∀ (s : PState) (bs : List ServerBlock), TInv cfg o sn s →
+        ∃ f0, ∀ fuel, f0 ≤ fuel → Tm (fun _ => True) (parseAll cfg fuel s bs) := by
+  induction u with
+  | zero =>
+    intro sn hsn hu s bs h
+    refine parseAll_total_aux cfg hyp sn (fun name body s' bs' h1 h2 _ => ?_) _ s bs h (Nat.le_refl _)
+    have := snOK_length (snOK_append hsn body h1 h2)
+    simp only [List.length_append, List.length_cons, List.length_nil] at this
+    omega
+  | succ u' ih =>
+    intro sn hsn hu s bs h
+    refine parseAll_total_aux cfg hyp sn (fun name body s' bs' h1 h2 h3 => ?_) _ s bs h (Nat.le_refl _)
+    have hsn' := snOK_append hsn body h1 h2
+    have := snOK_length hsn'
+    simp only [List.length_append, List.length_cons, List.length_nil] at this
+    exact ih _ hsn' (by simp only [List.length_append, List.length_cons, List.length_nil]; omega) s' bs' h3
+
+theorem tinv_new (cfg : Cfg) (fn : String) (o : List Token) : TInv cfg o [] { d := Disp.new fn o } := by
+  refine ⟨new_ok fn _, rfl, (fun p hp => by cases hp), trivial, ?_, ?_, ?_⟩
+  · intro f hf; cases hf
+  · intro i _ t ht; exact List.mem_append_left _ (List.mem_of_getElem? ht)
+  · intro k hk; cases hk
+
+/-- `Parse` ends — imports of files, globs and snippets nested to any depth, cycles of any shape, any number of snippet
+definitions: there is a fuel from which on the answer is not `timeout` -/
+theorem parse_total (cfg : Cfg) (fn : String) (input : Bytes) (hyp : HypS cfg (lex input)) :
+    ∃ f0, ∀ fuel, f0 ≤ fuel → Tm (fun _ => True) (parse cfg fuel fn input) := by
+  unfold parse parseTokens
+  exact parseAll_total cfg hyp _ [] ⟨List.nodup_nil, fun n hn => by cases hn⟩ (Nat.le_refl _) _ [] (tinv_new cfg fn _)
+
+/-! ### the explicit bound when no snippet is ever defined -/
+
+theorem candNames_nil {cfg : Cfg} {o : List Token} (hyp : Hyp cfg o) : candNames cfg o = [] := by
+  unfold candNames
+  rw [List.flatMap_eq_nil_iff]
+  intro t ht
+  obtain ⟨r, hr, hh⟩ := hyp.2.2 t ht
+  rw [hr]
+  simp only [isSnippet_none_of_head hh, isSnippet_none_of_head (head_dropLast_ne hh), Option.toList_none, List.append_nil]
 
 theorem parseAll_tm (cfg : Cfg) {o : List Token} (hyp : Hyp cfg o) (fuel : Nat) (s : PState) (bs : List ServerBlock)
-    (h : TInv cfg o s) (hf : Phi cfg s < fuel) : Tm (fun _ => True) (parseAll cfg fuel s bs) := by
+    (h : TInv cfg o [] s) (hf : Phi cfg [] s < fuel) : Tm (fun _ => True) (parseAll cfg fuel s bs) := by
   induction fuel generalizing s bs with
   | zero => omega
   | succ k ih =>
@@ -701,32 +1075,29 @@ theorem parseAll_tm (cfg : Cfg) {o : List Token} (hyp : Hyp cfg o) (fuel : Nat) 
     | true =>
       simp only [Bool.not_true, Bool.false_eq_true, if_false]
       obtain ⟨hfr, hphi, hback, _⟩ := tnext h hn
-      have hfr' : TFresh cfg o { s with d := s.d.next.2, keys := [], btoks := [] } :=
+      have hfr' : TFresh cfg o [] { s with d := s.d.next.2, keys := [], btoks := [] } :=
         ⟨tinv_of_d hfr.1 rfl rfl rfl (fun k hk => by cases hk), hfr.2.1, hfr.2.2⟩
-      have hp1 : Phi cfg { s with d := s.d.next.2, keys := [], btoks := [] } = Phi cfg { s with d := s.d.next.2 } :=
+      have hp1 : Phi cfg [] { s with d := s.d.next.2, keys := [], btoks := [] } = Phi cfg [] { s with d := s.d.next.2 } :=
         Phi_congr rfl rfl rfl
-      have hp2 : Phi cfg (back { s with d := s.d.next.2, keys := [], btoks := [] }) = Phi cfg s := by
+      have hp2 : Phi cfg [] (back { s with d := s.d.next.2, keys := [], btoks := [] }) = Phi cfg [] s := by
         rw [← hback]; exact Phi_congr rfl rfl rfl
-      refine Tm.bind (begin_tm cfg hyp (k + 1) _ hfr' (by omega)) fun s1 h1 => ?_
-      exact ih s1 _ h1.1 (by have := h1.2; omega)
+      refine Tm.bind (begin_tm cfg hyp.toS (k + 1) _ hfr' (by omega)) fun s1 h1 => ?_
+      rcases h1 with ⟨hi1, hle⟩ | ⟨name, body, _, h2, _⟩
+      · exact ih s1 _ hi1 (by omega)
+      · rw [candNames_nil hyp] at h2; cases h2
 
 /-- `Parse` with file imports ends: the total weight of the input is a sufficient fuel -/
 theorem parse_tm (cfg : Cfg) (fuel : Nat) (fn : String) (input : Bytes) (hyp : Hyp cfg (lex input))
     (hf : (lex input).length * (Lmax cfg + 2) ^ cfg.fs.files.length < fuel) :
     Tm (fun _ => True) (parse cfg fuel fn input) := by
   unfold parse parseTokens
-  have hinv : TInv cfg (lex input) { d := Disp.new fn (lex input) } := by
-    refine ⟨new_ok fn _, rfl, trivial, ?_, ?_, ?_⟩
-    · intro f hf; cases hf
-    · intro i _ t ht; exact List.mem_append_left _ (List.mem_of_getElem? ht)
-    · intro k hk; cases hk
-  refine parseAll_tm cfg hyp fuel _ [] hinv ?_
+  refine parseAll_tm cfg hyp fuel _ [] (tinv_new cfg fn _) ?_
   have hK : K { d := Disp.new fn (lex input) } = (lex input).length := by
     unfold K Disp.new Disp.len; simp only; omega
   unfold Phi
   rw [hK]
-  have := phiK_const (wt := wt cfg ([] : List (List Active))) 0 (lex input).length ((Lmax cfg + 2) ^ cfg.fs.files.length)
-    (fun r _ _ => by unfold wt wgt dep; simp)
+  have := phiK_const (wt := wt cfg [] ([] : List (List Active))) 0 (lex input).length ((Lmax cfg + 2) ^ cfg.fs.files.length)
+    (fun r _ _ => by unfold wt wgt dep LmaxS srcNames fileNames; simp)
   simp only [Nat.zero_add, phiK] at this
   rw [this]
   omega
@@ -739,5 +1110,12 @@ theorem hyp_of_noRef (cfg : Cfg) (o : List Token) (hc : cfg.cycleCheck = true) (
   have := List.all_eq_true.mp hall t ht
   simp only [Bool.and_eq_true, bne_iff_ne, ne_eq] at this
   exact ⟨t.text, envR_noRef cfg hf _ this.1, this.2⟩
+
+/-- a decidable sufficient condition for `HypS`: no source token contains `{%` / `{$` -/
+theorem hypS_of_noRef (cfg : Cfg) (o : List Token) (hc : cfg.cycleCheck = true) (hf : 0 < cfg.envFuel)
+    (hall : ((srcToks cfg o).all fun t => noRef t.text) = true) : HypS cfg o := by
+  refine ⟨hc, hf, fun t ht => ?_⟩
+  have := List.all_eq_true.mp hall t ht
+  exact ⟨t.text, envR_noRef cfg hf _ this⟩
 
 end Casket.Parser
